@@ -176,7 +176,7 @@ fn p_dec_s(enc: &str, prim: &str, bs: &[u8]) -> String {
         ("Hex", "String") => strg!(encoding::Hex),
         ("Utf8", "String") => strg!(encoding::Utf8),
         ("Custom", "Bytes") => guarded(move || match <Custom as Encoding<Vec<u8>>>::decode(&bs) {
-            Ok((v, r)) => format!("Ok b:{} {}", hex(&v), hex(r)),
+            Ok((v, r)) => format!("Ok [{}] {}", v.iter().map(|b| b.to_string()).collect::<Vec<_>>().join(";"), hex(r)),
             Err(e) => zerr(&e),
         }),
         ("Default", "DateTime") => guarded(move || match <encoding::Default as Encoding<NaiveDateTime>>::decode(&bs) {
